@@ -24,6 +24,7 @@ RULE = (
 ASSUMPTIONS = [
     "block edges from the C07 reference model (exact-rational interval count, float64 node positions)",
     "points within max(1e-9, 64 eps |bound|/block size) block sizes of a block edge may belong to either neighbour",
+    "float32 coordinates with an inferred region (or float32 region scalars): numpy builds the block grid in float32, so eps is float32's there",
     "events whose region has zero extent along an axis are skipped (no blocks to speak of) and counted",
 ]
 LEVEL_TEXT = (
@@ -35,7 +36,7 @@ LEVEL_TEXT = (
 LEVEL_NOTE = "Trusted: numpy float64 arithmetic, the C07 reference model (vmon/ref.py); edge points within the stated margin are either-way."
 TECHNIQUE = "runtime postcondition monitor on block_split (all aliases rebound) with an independent floor-arithmetic reference labelling; seeded hostile point clouds incl. exact edge/corner/outside points"
 FLOORS = {
-    "quick": {"eval:block_split": 1600, "eval:label": 120000, "distinct_nontrivial": 1200, "points:edge": 15000, "points:outside": 15000, "eval:layout_pair": 200},
+    "quick": {"eval:block_split": 1600, "eval:label": 120000, "distinct_nontrivial": 1200, "points:edge": 15000, "points:outside": 15000, "eval:layout_pair": 200, "class:dtype_int_east_float_north": 30, "class:dtype_float32_both": 30},
     "thorough": {"eval:block_split": 25000, "eval:label": 2000000, "distinct_nontrivial": 20000, "points:edge": 200000, "points:outside": 200000},
 }
 JOBS = {"quick": 1, "thorough": 16}
@@ -43,8 +44,8 @@ JOBS = {"quick": 1, "thorough": 16}
 
 def plan(tier):
     if tier == "quick":
-        return collections.OrderedDict(random=240, edges=160, outside=120, layouts=100, nested=40)
-    return collections.OrderedDict(random=4000, edges=2500, outside=2000, layouts=1500, nested=600)
+        return collections.OrderedDict(random=240, edges=160, outside=120, layouts=100, dtypes=80, nested=40)
+    return collections.OrderedDict(random=4000, edges=2500, outside=2000, layouts=1500, dtypes=1500, nested=600)
 
 
 # ----------------------------------------------------------------------
@@ -63,10 +64,10 @@ def _axis_blocks(lo, hi, size, spacing, adjust):
     return n, (hi - lo) / n, hi, tie
 
 
-def _allowed_index(values, lo, width, n, bound_mag):
+def _allowed_index(values, lo, width, n, bound_mag, feps=ref.EPS):
     """Per point: lower and upper admissible block index along one axis."""
     u = (values - lo) / width
-    margin = max(1e-9, 64 * ref.EPS * bound_mag / width)
+    margin = max(1e-9, 64 * feps * bound_mag / width)
     nearest = np.round(u)
     on_edge = np.abs(u - nearest) < margin
     base = np.floor(u)
@@ -92,6 +93,13 @@ def install(tap, run):
             run.count("skipped:empty_or_nonfinite")
             return
         region = a["region"]
+        # single-precision inputs: a region inferred from float32 coordinates (or given as float32 scalars) makes numpy build the
+        # block grid in float32, so positions are only defined to float32 round-off - the tolerance follows the input precision
+        low_precision = any(getattr(np.asarray(c), "dtype", None) == np.float32 for c in coords[:2]) if region is None else \
+            any(isinstance(v, np.float32) for v in region)
+        feps = float(np.finfo("float32").eps) if low_precision else ref.EPS
+        if low_precision:
+            run.count("class:float32_geometry")
         if region is None:
             region = (east.min(), east.max(), north.min(), north.max())
         w, e, s, n = (float(v) for v in region[:4])
@@ -126,15 +134,15 @@ def install(tap, run):
         want_n = ref.line_nodes(s, n_eff, nn, True)
         grid_e = np.tile(want_e, nn)
         grid_n = np.repeat(want_n, ne)
-        tol_e, tol_n = ref.line_tolerance(w, e_eff), ref.line_tolerance(s, n_eff)
+        tol_e, tol_n = ref.line_tolerance(w, e_eff) * feps / ref.EPS, ref.line_tolerance(s, n_eff) * feps / ref.EPS
         if np.max(np.abs(cent_e - grid_e)) > tol_e or np.max(np.abs(cent_n - grid_n)) > tol_n:
             return fail("block centres are not the pixel-registered grid of the region numbered row-major from the south-west corner", "centres")
         if labels.shape != (east.size,):
             return fail("labels have shape %s for %d points" % (labels.shape, east.size), "label-shape")
         if labels.dtype.kind not in "iu" or labels.min() < 0 or labels.max() >= ne * nn:
             return fail("labels outside 0..%d" % (ne * nn - 1), "label-range")
-        lo_c, hi_c, edge_c, out_c = _allowed_index(east, w, we, ne, max(abs(w), abs(e_eff)))
-        lo_r, hi_r, edge_r, out_r = _allowed_index(north, s, wn, nn, max(abs(s), abs(n_eff)))
+        lo_c, hi_c, edge_c, out_c = _allowed_index(east, w, we, ne, max(abs(w), abs(e_eff)), feps)
+        lo_r, hi_r, edge_r, out_r = _allowed_index(north, s, wn, nn, max(abs(s), abs(n_eff)), feps)
         col = labels % ne
         row = labels // ne
         good = (col >= lo_c) & (col <= hi_c) & (row >= lo_r) & (row <= hi_r)
@@ -270,6 +278,34 @@ def run_case(run, tap, stream, index, rng):
                     run.violation("layout_pair", "labels change when the same element sequence is passed as '%s'" % name,
                                   {"east": east, "north": north, "kwargs": kwargs, "base": base, "variant": labels}, key="layout:" + name)
             run.sample("layouts", {"n_points": npts, "kwargs": kwargs})
+        elif stream == "dtypes":
+            # the same points with integer / float32 / mixed coordinate dtypes: labels must not depend on the container dtype
+            npts = int(rng.choice([8, 40, 200]))
+            east, north = gen.cloud(rng, npts, scale=gen.log_uniform(rng, 20, 1e4), offset_factor=float(rng.choice([0, 1, 30])))
+            combos = {
+                "int_east_float_north": (np.round(east).astype("int64"), north),
+                "float_east_int_north": (east, np.round(north).astype("int32")),
+                "int_both": (np.round(east).astype("int32"), np.round(north).astype("int64")),
+                "float32_both": (east.astype("float32"), north.astype("float32")),
+                "float32_east": (east.astype("float32"), north),
+            }
+            for name, (ce, cn) in combos.items():
+                ef, nf = np.asarray(ce, dtype="float64"), np.asarray(cn, dtype="float64")
+                if np.ptp(ef) <= 0 or np.ptp(nf) <= 0:
+                    continue
+                region = [float(ef.min()), float(ef.max()), float(nf.min()), float(nf.max())]
+                kwargs = _block_args(rng, region, allow_single=False)
+                if rng.random() < 0.5:
+                    kwargs["region"] = region
+                got = vd.block_split((ce, cn), **kwargs)[1]
+                if "region" in kwargs:  # same points as float64: identical labels (region fixed, so geometry is identical)
+                    want = vd.block_split((ef, nf), **kwargs)[1]
+                    run.evaluated("dtype_pair")
+                    if not np.array_equal(got, want):
+                        run.violation("dtype_pair", "labels change when the same coordinate values are passed as %s" % name,
+                                      {"easting": ce, "northing": cn, "kwargs": kwargs, "labels": got, "labels_float64": want}, key="dtype:" + name)
+                run.count("class:dtype_" + name)
+            run.sample("dtypes", {"n_points": npts, "kwargs": kwargs})
         elif stream == "nested":
             npts = int(rng.integers(30, 200))
             east, north = gen.cloud(rng, npts, offset_factor=float(rng.choice([0, 1, 30])))
